@@ -253,7 +253,7 @@ def model_unanswered(r):
     return (r in ('NOOUTPUT', 'TIMEOUT', 'UNDECIDED') or r.startswith('CRASH') or r.startswith('MODELEXC'))
 
 
-def run_model(model_exe, cases, timeout=300):
+def run_model(model_exe, cases, timeout=900):
     """model side: a TIMEOUT / CRASH / MODELEXC / NOOUTPUT is a machinery condition (a loaded machine, a shard that
     ran out of time), never a verdict: such cases are re-run alone with a generous timeout; what still does not
     answer is UNDECIDED (counted in evidence, excluded from every comparison and from distinct_nontrivial)"""
@@ -263,7 +263,7 @@ def run_model(model_exe, cases, timeout=300):
     if again:
         vlib.log('C10: re-running %d model case(s) alone' % len(again))
         from concurrent.futures import ThreadPoolExecutor
-        with ThreadPoolExecutor(max_workers=max(1, vlib.NCPU // 2)) as ex:
+        with ThreadPoolExecutor(max_workers=vlib.NCPU) as ex:
             outs = list(ex.map(lambda cid: vlib.run_lines(model_exe, [lines[cid]], timeout=900).get(cid, 'NOOUTPUT'), again))
         for cid, r in zip(again, outs):
             res[cid] = 'UNDECIDED' if model_unanswered(r) else r
